@@ -585,6 +585,40 @@ def check_gp(ctx, case):
         ctx.disagree("samples are not mean + L z with the factor read through z = identity", case)
       else:
         ctx.count("draw: samples = mean + L z (model `sample`)")
+      # ---- history: draw, replace the data by a same-size data set, draw again at the SAME points
+      if G == 1 and observed and hasattr(pred, "update_historical_data"):
+        from libsigopt.compute.misc.data_containers import HistoricalData
+        import copy as _copy
+        gp = _copy.deepcopy(gps[0])   # the caller's model is left as it was (later steps still use it)
+        hr = numpy.random.RandomState(case.get("zseed", 0) + 17)
+        hd = HistoricalData(gp.dim)
+        X0 = numpy.array(gp.points_sampled, dtype=float)
+        hd.append_historical_data(X0 + 0.37 * hr.standard_normal(X0.shape),
+                                  numpy.array(gp.points_sampled_value, dtype=float)[::-1].copy() + hr.standard_normal(len(X0)),
+                                  numpy.array(gp.points_sampled_noise_variance, dtype=float) * 3.0 + 1e-3)
+        try:
+          gp.update_historical_data(hd)
+          S2 = numpy.array(gp.compute_covariance_of_points(P.copy()), dtype=float, copy=True)
+          mean2 = numpy.array(gp.compute_mean_of_points(P.copy()), dtype=float, copy=True)
+          with NormalOracle(lambda i, size: numpy.eye(m) if size == (m, m) and i == 0 else None) as no2:
+            smp2 = numpy.array(gp.draw_posterior_samples_of_points(m, P.copy()), dtype=float)
+        except (scipy.linalg.LinAlgError, numpy.linalg.LinAlgError):
+          smp2 = None
+        if smp2 is not None and len(no2.calls) == 1 and no2.calls[0][1] is not None and numpy.all(numpy.isfinite(S2)):
+          L2 = (smp2 - mean2[None, :]).T
+          ex2 = exact_check(ctx, m, m, S2, L2)
+          norm2 = float(numpy.abs(S2).max())
+          l2 = float(numpy.abs(L2).max()) if L2.size else 0.0
+          d2 = 4 * EPS * (float(numpy.abs(mean2).max()) + l2)
+          tol2 = tolerance(ex2, neg_part(S2), m * (2 * d2 * l2 + d2 * d2) + numtol([gp]) * norm2)
+          if ex2["res"] > tol2:
+            ctx.violation("C17 after the data were replaced (update_historical_data) draws at the same points use a factor with "
+                          "L L' != the CURRENT posterior covariance",
+                          {"case": case, "covariance_after_update": S2.tolist(), "effective_factor": L2.tolist(),
+                           "max_abs_residual": float(ex2["res"]), "tolerance": float(tol2)})
+            ctx.case(key=case, nontrivial=fallback)
+            return
+          ctx.count("draw: factor re-checked after update_historical_data at the same query points")
   elif via == "qei":
     fallback = check_qei(ctx, case, pred, gps, P)
   if case.get("stat"):
